@@ -253,6 +253,9 @@ VALUE_FORMS = [
     ('define f begin return -1 end print [f]', '-1'),
     ('define g with a begin print a end g -6 [g -8]', '-6 -8'),
     ('assign x -1 print x', '-1'),
+    ('printf "{} {}" not 0 not 1', 'True False'),
+    ('assign x 0 print not x println not 5', 'True False\n'),
+    ('define f with a begin print a end f not 0', 'True'),
     ('repeat 2 with h cycle -90 begin print h end', '-90 90.0'),
 ]
 
@@ -277,7 +280,7 @@ def value_forms_worker(args):
             continue
         res.reached.add('value-forms')
         if not ok:
-            res.violation('value-forms|rejected', 'a negative literal is not accepted as a value: %s\n  script: %s' % (p.get_errors().strip(), text),
+            res.violation('value-forms|rejected', 'a value form is not accepted: %s\n  script: %s' % (p.get_errors().strip(), text),
                           inputs={'script': text}, replayed=True)
             continue
         sys.stdout = out
